@@ -320,7 +320,7 @@ int main(int argc, char** argv) {
         w.begin_obj().ks("e", g["k"].s()).key("g").raw(line);
         const std::string& k = g["k"].s();
         if (k == "bool") do_bool(g, w);
-        else if (k == "fracture") do_fracture(g, w);
+        else if (k == "fracture" || k == "stair") do_fracture(g, w);
         else if (k == "gdsfrac") do_gdsfrac(g, w);
         else if (k == "gdspath") do_gdspath(g, w);
         else if (k == "slice") do_slice(g, w);
